@@ -16,6 +16,10 @@ def _noop(row):
     pass
 
 
+def _to_text(v):
+    return None if v is None else 'T:%s' % (v,)
+
+
 def real_only_steps(sel):
     """selector-taking processors outside Layer A, configured so that their action cannot fail on
     arbitrary resources; (name, step factory, visible_on_selected)"""
@@ -28,6 +32,7 @@ def real_only_steps(sel):
         ('update_schema', lambda: DF.update_schema(sel, missingValues=['', 'x']), False),
         ('set_type', lambda: DF.set_type('.*', resources=sel, description='d'), True),
         ('printer', lambda: DF.printer(resources=sel), False),
+        ('set_type_transform', lambda: DF.set_type('.*', resources=sel, type='string', transform=_to_text), False),
     ]
 
 
@@ -84,13 +89,30 @@ def real_only_case(ctx, rng):
     flags = P.selected_flags(a, desc)
     if 'ok' not in real:
         # a selector-taking processor must not fail merely because of the selector form
-        if name == 'set_type' and not any(flags):
+        if name.startswith('set_type') and not any(flags):
             return  # documented assertion: no field found
         sig = 'frame:%s:%s-selector-raises' % (name, type(sel).__name__)
         rep.fail(sig, case, real)
         return
     for sig, detail in P.frame_oracle(name, a, desc, rows, real):
         rep.fail(sig, case, detail)
+    # the same step object on another package (one more resource in front and one behind): a selector is resolved
+    # against the package at hand, nothing of the earlier run may linger
+    if rng.random() < 0.5:
+        extra_f = canon.make_descriptor([{'name': 'zz-front', 'fields': [('q', 'integer')]}])['resources'][0]
+        extra_b = canon.make_descriptor([{'name': 'zz-back', 'fields': [('q', 'integer')]}])['resources'][0]
+        desc2 = {'resources': [extra_f] + copy.deepcopy(desc['resources']) + [extra_b]}
+        rows2 = [[{'q': 1}]] + copy.deepcopy(rows) + [[{'q': 2}]]
+        try:
+            fresh_step = mk()
+        except Exception:  # noqa
+            fresh_step = None
+        if fresh_step is not None:
+            reused = S.run_real([step], desc2, rows2)
+            fresh = S.run_real([fresh_step], desc2, rows2)
+            if S.norm_result(reused) != S.norm_result(fresh):
+                rep.fail('reuse:%s:state-of-an-earlier-run-lingers' % name, case,
+                         {'reused': str(S.norm_result(reused))[:500], 'fresh': str(S.norm_result(fresh))[:500]})
     if visible:
         if name == 'add_computed_field':
             ch = [any(f['name'] == 'cst__' for f in r['fields']) for r in real['ok']]
